@@ -2,8 +2,8 @@
 chains, format templates, callee sets."""
 
 CHILD_KEYS = (
-    "args", "recv", "base", "e", "l", "r", "cond", "then", "else", "init", "scrut", "body",
-    "stmts", "expr", "es", "idx", "callee", "els", "guard", "fields", "arms",
+    "recv", "callee", "args", "base", "idx", "e", "l", "r", "cond", "then", "else", "init", "els", "scrut", "guard",
+    "arms", "body", "stmts", "expr", "es", "fields",
 )
 
 
@@ -269,3 +269,28 @@ def template_string(pieces, render_arg=None):
         else:
             s += render_arg(v) if render_arg else "{}"
     return s
+
+
+def for_loops(n):
+    """All desugared `for` loops below n: yields (node, iterable expr, loop variable pattern, body)."""
+    for x in walk(n):
+        if x.get("k") == "match" and x.get("src") == "ForLoopDesugar":
+            sc = strip(x["scrut"])
+            if sc.get("k") == "call" and sc.get("def", "").endswith("IntoIterator::into_iter") and sc.get("args"):
+                it = sc["args"][0]
+                try:
+                    loop = x["arms"][0]["body"]
+                    inner = [y for y in loop["body"]["stmts"] if y.get("k") == "match" and y.get("src") == "ForLoopDesugar"] or [
+                        y for y in [loop["body"].get("expr")] if y and y.get("k") == "match"
+                    ]
+                    m = inner[0]
+                    some = [a for a in m["arms"] if a["pat"].get("def", "").endswith("Some")][0]
+                    pat = some["pat"]
+                    var = (pat.get("subs") or [f["pat"] for f in pat.get("fields", [])])[0]
+                    yield x, it, var, some["body"]
+                except (KeyError, IndexError, TypeError):
+                    continue
+
+
+def contains(n, node):
+    return any(x is node for x in walk(n))
